@@ -167,7 +167,7 @@ fn transfer(case: &Value, out: &mut Obj) -> Result<(), Obj> {
         if dir == "read_array" || dir == "write_array" {
             let n = object.len() / elem;
             coe.set_u8(index, 0, n.min(255) as u8);
-            for (k, c) in object.chunks_exact(elem).enumerate().take(254) {
+            for (k, c) in object.chunks_exact(elem).enumerate().take(255) {
                 coe.set(index, (k + 1) as u8, c.to_vec());
             }
         } else if complete {
@@ -250,6 +250,18 @@ fn transfer(case: &Value, out: &mut Obj) -> Result<(), Obj> {
                     sd.sdo_read::<heapless::Vec<u8, 512>>(index, sub_arg).await.map(|v| v.to_vec())
                 }),
                 _ => return Err(unsupported(case, "unknown read_as")),
+            };
+            put_value(out, p);
+        }
+        "read_array" if get_u64(case, "array_cap", 16) == 255 => {
+            // the largest list a sub-index 0 can announce
+            let p = match read_as {
+                "u8" => env.run(async { sd.sdo_read_array::<u8, 255>(index).await.map(|v| v.to_vec()) }),
+                _ => env.run(async {
+                    sd.sdo_read_array::<u16, 255>(index)
+                        .await
+                        .map(|v| v.iter().flat_map(|x| x.to_le_bytes()).collect::<Vec<u8>>())
+                }),
             };
             put_value(out, p);
         }
